@@ -442,3 +442,84 @@ class DecodeFailTask(DecodeTask):
         evs = [e.args[0] for e in I.trace if e.name == "evt"]
         I.ob(f"C27/{DECODE}/no-EVT_PDU_RECV-when-decode-fails", kind == "raise" and "EVT_PDU_RECV" not in evs, detail=repr(evs))
         I.ob(f"C02/{DECODE}/decode-failure-propagates-to-the-caller", kind == "raise")
+
+
+# ---------------------------------------------------------------------------------------------
+# AssociationSocket.ready: the gate in front of every read
+# ---------------------------------------------------------------------------------------------
+READY = f"{TR}:AssociationSocket.ready.fget"
+
+
+class ReadyTask(Task):
+    """`ready` decides whether the reactor reads at all.  Framing is independent of how the peer cut its stream only if every
+    byte that has arrived is eventually offered to the reader: data is available when select() reports the socket readable OR -
+    for a TLS socket of EITHER side - the TLS layer holds decrypted bytes that select() cannot see (several PDUs in one TLS
+    record).  A failing select() is a closed connection (Evt17), nothing else; without a connected socket nothing is read."""
+    name = "AssociationSocket.ready"
+    functions = [READY]
+
+    def config(self, repo):
+        c = Config()
+        c.ob_prefix = "C03/"
+
+        def select(I, args, kw):
+            g = I.ghost
+            I.trace.append(Ev("select", (args[0], args[3] if len(args) > 3 else kw.get("timeout"))))
+            k = I.choose(3, "select")
+            if k == 2:
+                raise PyRaise(ExcVal(["OSError", "ValueError", "TimeoutError"][I.choose(3, "select error")], ("bad socket",)))
+            g["readable"] = k == 1
+            return ([g["sock"]] if k == 1 else [], [], [])
+        c.ext_models["select.select"] = select
+        c.module_consts[(TR, "_HAS_SSL")] = True
+
+        def env_call(I, env, method, args, kw):
+            g = I.ghost
+            if env.path == "self.socket" and method == "pending":
+                I.trace.append(Ev("pending"))
+                return g["pending"]
+            if env.path == "self.event_queue" and method == "put":
+                I.trace.append(Ev("event", (args[0],)))
+                return None
+            return NotImplemented
+        c.env_call = env_call
+        return c
+
+    def body(self, I):
+        P = f"C03/{READY}"
+        g = I.ghost
+        me = Env("self", cls=I.repo.cls(f"{TR}:AssociationSocket"))
+        me.attrs["event_queue"] = Env("self.event_queue")
+        state = I.choose(3, "socket state")          # 0: no socket, 1: not connected, 2: connected
+        tls = I.choose(2, "TLS socket") == 1
+        side = ["requestor", "acceptor"][I.choose(2, "which side wrapped the socket")]
+        sock = Env("self.socket", cls="ssl.SSLSocket" if tls else "socket.socket")
+        g["sock"] = sock
+        me.attrs["socket"] = None if state == 0 else sock
+        me.attrs["_is_connected"] = state == 2
+        # a requestor's TLS socket is wrapped from AE tls_args, an acceptor's by the server's ssl_context: tls_args says nothing
+        # about whether THIS socket is a TLS socket
+        ta = Env("tls_args")
+        ta.truth = True                       # (ssl_context, server_hostname): a non-empty tuple
+        me.attrs["tls_args"] = (ta if (tls and side == "requestor") else None)
+        me.attrs["_tls_args"] = me.attrs["tls_args"]
+        g["pending"] = I.input("int", "bytes_pending_in_the_TLS_layer")
+        I.assume(g["pending"].e >= 0)
+        kind, val = I.run_function(I.repo.func(READY), [me])
+        I.ob(f"{P}/no-exception", kind == "return", detail=f"{kind}:{val!r}")
+        if kind != "return":
+            return
+        evs = [e.args[0] for e in I.trace if e.name == "event"]
+        sel = [e for e in I.trace if e.name == "select"]
+        r = val if isinstance(val, bool) else (val.e if isinstance(val, SV) else None)
+        if state != 2:
+            I.ob(f"{P}/nothing-is-ready-without-a-connected-socket", r is False and not sel and not evs)
+            return
+        I.ob(f"{P}/select-is-asked-once-without-waiting", len(sel) == 1 and sel[0].args[1] == 0, detail=repr(sel))
+        if "readable" not in g:
+            I.ob(f"{P}/a-failing-select-is-a-closed-connection:Evt17-and-not-ready", r is False and evs == ["Evt17"], detail=f"{r} {evs}")
+            return
+        I.ob(f"{P}/no-event-when-select-succeeds", evs == [])
+        want = z3.Or(z3.BoolVal(g["readable"]), z3.And(z3.BoolVal(tls), g["pending"].e > 0))
+        I.ob(f"{P}/ready-iff-readable-or-decrypted-bytes-are-pending-in-the-TLS-layer-of-either-side",
+             r is not None and (z3.BoolVal(r) if isinstance(r, bool) else r) == want, detail=f"tls={tls} side={side} readable={g['readable']}")
